@@ -64,7 +64,10 @@ def configs(tier):
                 if backend != 'cbin':
                     for m in ([1, 2] if quick else [1, 2, 3]):
                         items += ['list%d' % m, 'array%d' % m]
+                    items += ['uarray2']      # index array of an unsigned dtype (what KiloSort writes)
                 for item in items:
+                    if K >= 5 and item not in ('int', 'slice_nn', 'list1', 'array2'):
+                        continue      # two symbolic negative bounds over 5 parts exceed the query timeout
                     sels = _colsels(nc, tier)
                     if K >= 3 and quick:
                         sels = sels[:3]
@@ -130,10 +133,16 @@ def run_config(cfg, e):
             for u, v in zip(xs[:-1], xs[1:]):
                 e.assume(u < v)
             e.assume(xs[-1] < n)
-            item = list(xs) if kind.startswith('list') else snp.asarray(xs)
+            if kind.startswith('list'):
+                item = list(xs)
+            elif kind.startswith('uarray'):
+                item = snp.ndarray(snp._fromlist(xs, (m,)), 'uint64')
+            else:
+                item = snp.asarray(xs)
             L = m
             rowf = lambda j: lam._select(xs, j)
             info = lambda ev: {'item': [kind[:-1], ev(xs)]}
+            e.prefer.append(xs[-1] <= 40)
         sel = _mksel(cfg['sel'])
         e.case_builder = lambda ev: dict(rec.case(ev), sel=cfg['sel'], **info(ev))
         try:
@@ -186,6 +195,8 @@ def replay(case):
             item = slice(it[1], it[2])
         elif it[0] == 'list':
             item = list(it[1])
+        elif it[0] == 'uarray':
+            item = np.array(it[1], dtype=np.uint64)
         else:
             item = np.array(it[1])
         sel = _mksel(case['sel'])
